@@ -97,10 +97,17 @@ pub fn run_batch(cfg: &BatchCfg, case: &CaseFn, known_open: &HashSet<String>) ->
     let next = AtomicU64::new(0);
     let stop = AtomicBool::new(false);
     let workers = cfg.workers.max(1);
+    // Crash breadcrumbs: when VERIF_CRUMB_DIR is set every worker records, before each run, which run
+    // it is about to execute. If simulated code corrupts memory and the process dies, ./check reads
+    // the crumbs and replays the candidates one by one.
+    let crumb_dir = std::env::var("VERIF_CRUMB_DIR").ok();
+    let worker_no = AtomicU64::new(0);
     std::thread::scope(|sc| {
         for _ in 0..workers {
             sc.spawn(|| {
                 let mut local: Vec<(u64, u64, CaseOutcome)> = Vec::new();
+                let my_no = worker_no.fetch_add(1, Ordering::Relaxed);
+                let crumb = crumb_dir.as_ref().and_then(|d| std::fs::OpenOptions::new().create(true).write(true).truncate(true).open(format!("{}/crumb.{}", d, my_no)).ok());
                 loop {
                     if stop.load(Ordering::Relaxed) {
                         break;
@@ -115,6 +122,11 @@ pub fn run_batch(cfg: &BatchCfg, case: &CaseFn, known_open: &HashSet<String>) ->
                     }
                     let rs = run_seed(cfg.seed, cfg.property, cfg.check, i);
                     let nonce = mix(&[rs, 0x6e6f6e6365]);
+                    if let Some(f) = crumb.as_ref() {
+                        use std::os::unix::fs::FileExt;
+                        let line = format!("{} {} {} {} {} {} {:<40}\n", cfg.property, cfg.check, cfg.tier, i, rs, nonce, "");
+                        let _ = f.write_all_at(line.as_bytes(), 0);
+                    }
                     let out = case(rs, nonce, None);
                     local.push((i, rs, out));
                     if local.len() >= 256 {
